@@ -12,8 +12,8 @@ def items(pid):
     return [
         (T.calc_q(pid, 'Trapezoid', 'T(x-x0)-h/2(f+f0)'),),
         (T.calc_q(pid, 'BackEuler', 'T(x-x0)-h*f'),),
-        (T.calc_jac(pid, 'Trapezoid'),),
-        (T.calc_jac(pid, 'BackEuler'),),
+        (T.calc_jac(pid, 'Trapezoid'), None, T.replay_itm_matrix),
+        (T.calc_jac(pid, 'BackEuler'), None, T.replay_itm_matrix),
         (T.step(pid), T.WIT_F9, T.replay_step),
         (T.calc_h_first(pid),),
         (T.calc_h(pid, drop=('event-index-only-moved-by-do_switch',)),),
@@ -47,6 +47,15 @@ def run(tier, seed):
                              'counted_as_proved': False})
         if bad:
             pack.violation(name, {'bounded': True, 'inputs': bad, 'native_cmd': 'contracts/bounded_tds_rule.py'})
+    from contracts import bounded_itm_matrix as BIM
+    name = 'C04/andes/routines/daeint.py:calc_jac;calc_q/bounded:the-integrator-matrix-is-the-derivative-of-the-residual-it-is-solved-against(both-methods)'
+    r = native_guard(pack, name, BIM.run)
+    if r is not None:
+        n, bad = r
+        pack.bounded.append({'function': 'Trapezoid / BackEuler calc_jac against calc_q (kundur_full after TDS.init)', 'methods': n, 'counted_as_proved': False,
+                             'kind': 'bounded native'})
+        if bad:
+            pack.violation(name, {'bounded': True, 'inputs': bad, 'native_cmd': 'contracts/bounded_itm_matrix.py'})
     # the time constants the rule is evaluated with follow parameter changes made between segments of a run (Model.set -> dae.Tf, Teye)
     from contracts import fn_pu
     run_contracts(pack, [(fn_pu.model_set('C04', 'v'), None, fn_pu.replay_model_set), (Q.store_tf('C04'), None, Q.replay_store_tf)])
